@@ -634,7 +634,9 @@ func (ctx *RequestContext) FileFromFS(filepath string, fs *FS) {
 		ctx.Request.URI().SetPath(old)
 	}(string(ctx.Request.URI().PathOriginal()))
 
-	ctx.Request.URI().SetPath(filepath)
+	// (filepath names a file: quoted, so that the decoding done by SetPath gives
+	// back the very name)
+	ctx.Request.URI().SetPathBytes(bytesconv.AppendQuotedPath(nil, bytesconv.S2b(filepath)))
 
 	fs.NewRequestHandler()(context.Background(), ctx)
 }
